@@ -77,7 +77,7 @@ def triple(rep, name, fn, cands, i, kwargs, case):
     neg = call(fn, cands, index=i - n, **kwargs)
     rep.inc("executions", 3)
     rep.inc("transitions", 3)
-    rep.add("states", (name, at_i))
+    rep.add("states", (name, id(cands), i))
     if case.get("dict_at") is not None and at_i[0] == trunc[0] == neg[0] == "raised":
         rep.inc("raised_consistently_on_dict_reading")  # a dict is not a *missing* reading: only consistency is demanded
         return BAD
